@@ -332,6 +332,8 @@ class HybridClass(metaclass=MetaHybridClass):
         for kk, vv in dct.items():
             xo_name = cls._inverse_rename.get(kk, kk)
             ftype = getattr(getattr(cls._XoStruct, xo_name, None), "ftype", None)
+            # (a reference field holds the form of the object it points to)
+            ftype = getattr(ftype, "_reftype", ftype)
             if isinstance(vv, dict) and hasattr(ftype, "_DressingClass"):
                 vv = ftype._DressingClass._dict_with_xo_names(vv)
             out[xo_name] = vv
